@@ -474,6 +474,62 @@ def _nonempty_states(cfg, r):
     return rec
 
 
+def r20_7(prog, rep, rid="R20.7"):
+    """The rotation merge goes on until one of its two ranges is used up: what is left of A when the loop is left early stays where it
+    is, in front of members of B that belong in front of it.  Every edge that leaves the loop of MergeInPlace() is the false side of an
+    emptiness test of A or of B (the loop is evaluated with the length of one range fixed to 0 and to 1: the edge must be taken for 0
+    and not for 1)."""
+    from ..absw import eval_in
+    n = 0
+    for unit in ("instant.c", "event.c"):
+        f = _template_fns(prog, unit).get("MergeInPlace")
+        if f is None:
+            rep.broken_("rule=%s %s: MergeInPlace not found" % (rid, unit))
+            continue
+        cfg = f.cfg
+        ranges = [p_["n"] for p_ in f.params if "Range" in (p_.get("t") or "")]
+        loops = cfg.natural_loops()
+        mine = {h: blks for h, blks in loops.items()
+                if any(c.get("fn") == "Range_length" for b in blks for e in cfg.blocks[b].elems if isinstance(e["x"], dict) for c in calls(e["x"]))}
+        if len(ranges) != 2 or len(mine) != 1:
+            rep.broken_("rule=%s %s: MergeInPlace has %d Range parameters and %d merge loops" % (rid, unit, len(ranges), len(mine)))
+            continue
+        (h, blks), = mine.items()
+
+        def ev(c, r, length):
+            def call_eval(q, store):
+                if q.get("fn") == "Range_length" and q.get("a") and lv(strip_casts(cfg.resolve(q["a"][0]))) == r:
+                    return length
+                return None
+            store = {r + ".start": 10, r + ".end": 10 + length}
+            return eval_in(store, c, f, call_eval)
+        k = 0
+        for b in sorted(blks):
+            blk = cfg.blocks[b]
+            for si, s_ in enumerate(blk.succs):
+                if s_ is None or si in blk.dead or s_ in blks:
+                    continue
+                k += 1
+                n += 1
+                key = "%s/MergeInPlace/loop-exit#%d" % (unit, k)
+                c = cfg.cond(b)
+                line = blk.elems[-1].get("line") if blk.elems else None
+                okr = None
+                if c is not None and len(blk.succs) == 2:
+                    for r in ranges:
+                        v0, v1 = ev(c, r, 0), ev(c, r, 1)
+                        if v0 is not None and v1 is not None and (0 if v0 else 1) == si and (0 if v1 else 1) != si:
+                            okr = r
+                if okr:
+                    rep.ok(rid, key, f.loc(line), "the loop is left when %s is empty" % okr)
+                else:
+                    rep.fail(rid, key, f.loc(line), "the merge loop is left%s although neither %s nor %s is known to be empty: the rest of %s stays in "
+                             "front of members of %s that sort before it — the output is a permutation but not in order (needs >= 2048 "
+                             "elements with very few distinct values)" % (" on `%s`" % show(c)[:40] if c is not None else "", ranges[0], ranges[1], ranges[0], ranges[1]))
+    if n < 4:
+        rep.broken_("rule=%s expected >=4 loop exits (2 per unit), found %d" % (rid, n))
+
+
 def run(prog, rep, tier, snap):
     rep.rule("R20.1", "comparator is a strict order applied symmetrically", 5)
     rep.call(r20_1, prog, rep)
@@ -489,4 +545,9 @@ def run(prog, rep, tier, snap):
     rep.call(r20_6, prog, rep)
     rep.rule("R08.3", "sentinels wrap to zero: all-day sorts before timed (shared with C08)", 4)
     rep.call(c08.r08_3, prog, rep)
+    rep.rule("R20.7", "the rotation merge runs until one of its ranges is empty", 4)
+    rep.call(r20_7, prog, rep)
+    from . import c03
+    rep.rule("R03.6", "the sort entry points order instants through the comparators only, never by the packed word (shared with C03)", 1)
+    rep.call(c03.r03_6, prog, rep, "R03.6", ("instant.c", "event.c", "wikisort.c", "event.h", "range.h"))
 READY = True
